@@ -13,18 +13,18 @@ type RelKind int
 
 const (
 	// --- relations that derive an integer field
-	RCount   RelKind = iota // field = number of bytes (KBytes) / elements (KWords, slices) of Of
-	RStrLen                 // field = number of bytes in the Buffer of string field Of
-	RDiv43                  // field = len(Buffer of Of) / 43 (number of SMB_Directory_Information entries carried in a blob)
-	ROffset                 // field = offset from the first byte of the SMB header to the first byte of Of; unconstrained (free) while Of is empty
-	RAtLeast                // field >= value of field Of (Total*Count >= *Count); otherwise free
-	RConst0                 // field must be 0: the structure has no member that could hold what the field counts
-	RWordCount              // field mirrors the WordCount byte of the block itself (SMB_Parameters.WordCount); it occupies no parameter word
+	RCount     RelKind = iota // field = number of bytes (KBytes) / elements (KWords, slices) of Of
+	RStrLen                   // field = number of bytes in the Buffer of string field Of
+	RDiv43                    // field = len(Buffer of Of) / 43 (number of SMB_Directory_Information entries carried in a blob)
+	ROffset                   // field = offset from the first byte of the SMB header to the first byte of Of; unconstrained (free) while Of is empty
+	RAtLeast                  // field >= value of field Of (Total*Count >= *Count); otherwise free
+	RConst0                   // field must be 0: the structure has no member that could hold what the field counts
+	RWordCount                // field mirrors the WordCount byte of the block itself (SMB_Parameters.WordCount); it occupies no parameter word
 	// --- length sources of variable raw fields (what a decoder uses)
-	RBy    // length given by integer field Of (bytes for KBytes, elements otherwise)
-	RRest  // extends to the end of the data block
-	RPad   // padding in front of Of: any length is consistent (offsets are computed from the real layout); the default aligns Of to Align bytes from the header start when Of is non-empty
-	REmpty // must be empty (padding that exists only when strings are Unicode; the model uses OEM strings)
+	RBy       // length given by integer field Of (bytes for KBytes, elements otherwise)
+	RRest     // extends to the end of the data block
+	RPad      // padding in front of Of: any length is consistent (offsets are computed from the real layout); the default aligns Of to Align bytes from the header start when Of is non-empty
+	REmpty    // must be empty (padding that exists only when strings are Unicode; the model uses OEM strings)
 	ROptional // optional trailing parameter field (MS-CIFS: "this field is optional", two legal WordCounts): it must be on the wire when it is non-zero, it may be left out when it is zero; the reference leaves it out
 	RZStr16   // NUL-terminated UTF-16 string: the field holds the characters (even length, no 0x0000 code unit), the wire adds the 2-byte terminator
 )
